@@ -879,6 +879,10 @@ class Parser:
             # Issue #182: Track pending comments for next child
             # Issue #217: Include any pre-indent comments collected before first INDENT
             pending_comments: list[str] = pre_indent_comments.copy()
+            # Comments on a line dedented below the children, with no further child after them,
+            # belong to the enclosing level (they lead the next sibling of this section or of an
+            # ancestor): remember where they start so they can be handed back.
+            dedented_comments_at: tuple[int, int] | None = None
 
             while True:
                 # End conditions
@@ -896,6 +900,8 @@ class Parser:
 
                 # Issue #182: Collect comments as pending for next child
                 if self.current().type == TokenType.COMMENT:
+                    if current_line_indent < child_indent and dedented_comments_at is None:
+                        dedented_comments_at = (self.pos, len(pending_comments))
                     pending_comments.append(self.current().value)
                     self.advance()
                     continue
@@ -937,6 +943,7 @@ class Parser:
                         else:
                             section_key_positions[child_key] = [child_line]
                     children.append(child)
+                    dedented_comments_at = None
                     # GH#81: After parsing a child (especially nested blocks),
                     # the recursive call may have consumed NEWLINEs. Reset indent
                     # tracking so next iteration properly detects the current
@@ -945,6 +952,10 @@ class Parser:
                 else:
                     # No valid child parsed, might be end of section
                     break
+
+            if dedented_comments_at is not None:
+                self.pos, keep = dedented_comments_at
+                del pending_comments[keep:]
 
             # Issue #182: Handle orphan comments at end of section
             # If pending_comments exist but loop broke (dedent/EOF), they are inner comments
@@ -1123,6 +1134,9 @@ class Parser:
 
                 # Issue #182: Track pending comments for next child
                 pending_comments: list[str] = []
+                # Comments on a line dedented below the children, with no further child after
+                # them, belong to the enclosing level (see parse_section_marker).
+                dedented_comments_at: tuple[int, int] | None = None
 
                 while True:
                     # End conditions
@@ -1140,6 +1154,8 @@ class Parser:
 
                     # Issue #182: Collect comments as pending for next child
                     if self.current().type == TokenType.COMMENT:
+                        if current_line_indent < child_indent and dedented_comments_at is None:
+                            dedented_comments_at = (self.pos, len(pending_comments))
                         pending_comments.append(self.current().value)
                         self.advance()
                         continue
@@ -1198,6 +1214,7 @@ class Parser:
                             else:
                                 block_key_positions[child_key] = [child_line]
                         children.append(child)
+                        dedented_comments_at = None
                         # GH#81: After parsing a child (especially nested blocks),
                         # the recursive call may have consumed NEWLINEs. Reset indent
                         # tracking so next iteration properly detects the current
@@ -1210,6 +1227,10 @@ class Parser:
                     else:
                         # No valid child parsed, might be end of block
                         break
+
+                if dedented_comments_at is not None:
+                    self.pos, keep = dedented_comments_at
+                    del pending_comments[keep:]
 
                 # Issue #182: Handle orphan comments at end of block
                 # If pending_comments exist but loop broke (dedent/EOF), they are inner comments
